@@ -237,5 +237,5 @@ def parse_tokens(tokens):
 def parse_text(text):
     """AST of an expression written as text (names without prefixes): a plain tokenizer in front of parse_tokens."""
     import re as _re
-    tok = _re.compile(r"'[^']*'|\"[^\"]*\"|::|//|\.\.|!=|<=|>=|[A-Za-z_][\w.-]*|\d+(?:\.\d+)?|\S")
+    tok = _re.compile(r"'[^']*'|\"[^\"]*\"|\$[A-Za-z_][\w.-]*|::|//|\.\.|!=|<=|>=|[A-Za-z_][\w.-]*|\d+(?:\.\d+)?|\S")
     return parse_tokens(tok.findall(text))
